@@ -1176,3 +1176,8 @@ package xmpp
 // lock discipline: every exit releases the locks it took
 //@ func (*Session).UpdateAddr
 //@   lockbalanced[C12]
+// C12: the bound address replaces the local address of both directions, and
+// only while the session is still being negotiated
+//@   ensures[C12] old(s.state) & Ready != 0 ==> !ok && s.in.Info.To == old(s.in.Info.To) && s.out.Info.From == old(s.out.Info.From)
+//@   ensures[C12] old(s.state) & Ready == 0 ==> ok && s.in.Info.To == j && s.out.Info.From == j
+//@   ensures[C12] s.in.Info.From == old(s.in.Info.From) && s.out.Info.To == old(s.out.Info.To) && s.state == old(s.state)
